@@ -38,7 +38,7 @@ def _writePotential(potential, cutoff, gridPoints, meshResolution, out ):
   r=0.0
   for i in range(gridPoints):
     r += meshResolution
-    l.append(potential.energy(r))
+    l.append(_fitField(potential.energy(r)))
 
     if len(l) == 4:
       #List has 4 elements, dump a row
@@ -51,7 +51,7 @@ def _writePotential(potential, cutoff, gridPoints, meshResolution, out ):
   r = 0.0
   for i in range(gridPoints):
     r += meshResolution
-    l.append(_calculateForce(potential, r))
+    l.append(_fitField(_calculateForce(potential, r)))
 
     if len(l) == 4:
       #List has 4 elements, dump a row
@@ -61,6 +61,16 @@ def _writePotential(potential, cutoff, gridPoints, meshResolution, out ):
 
   #Dump the output to out
   out.write(outputbuilder.getvalue())
+
+def _fitField(value):
+  """The 15 character fields of the TABLE file hold two-digit exponents: magnitudes below 1e-99 (the underflowing
+  tail of a short ranged potential) would widen the field and shift the columns, they are tabulated as zero.
+
+  @param value Energy or force value
+  @return `value` or 0.0 if it is too small to be represented in a TABLE field"""
+  if abs(value) < 1e-99:
+    return 0.0
+  return value
 
 def _calculateForce(pot, r):
   """Calls pot.force for separation (r) and returns DL_POLY -r dU/dr values rather than
